@@ -116,4 +116,9 @@ Section RootCauses.
   Definition root_causes_fx : list bool := [false; false; rc_F3; rc_F4; rc_F5; false; rc_F7_fx; false].
 
   Definition C06_dom_fx : bool := forallb negb root_causes_fx.
+
+  (** ** after the typing repair (literal-type-from-suffix) as well: only the remainder of F7 *)
+  Definition root_causes_fx2 : list bool := [false; false; false; false; false; false; rc_F7_fx; false].
+
+  Definition C06_dom_fx2 : bool := forallb negb root_causes_fx2.
 End RootCauses.
